@@ -129,7 +129,7 @@ func canon(v any) string {
 }
 
 // loose projections (numbers by value) for the comparison of a result with its String() parsed again
-func looseFr(x jp.Expr) string   { return canon(projectL(x, true)) }
+func looseFr(x jp.Expr) string     { return canon(projectL(x, true)) }
 func looseTr(sc *jp.Script) string { return canon(shapeOfL(sc, true)) }
 
 func runOne(c *tcase) *event {
@@ -293,7 +293,7 @@ func mutate(nbases int, alpha []byte, seed int64) {
 		for p := 0; p <= len(b); p++ {
 			if p < len(b) {
 				emit(api, append(append([]byte{}, b[:p]...), b[p+1:]...), "del") // delete
-				emit(api, b[:p], "trunc")                                         // truncate
+				emit(api, b[:p], "trunc")                                        // truncate
 			}
 			for _, a := range alpha {
 				emit(api, append(append(append([]byte{}, b[:p]...), a), b[p:]...), "ins") // insert
